@@ -247,21 +247,87 @@ Ltac break_hdr :=
           | |- context [match parse_amount ?x with _ => _ end] => destruct (parse_amount x) eqn:?
           end; cbv beta iota).
 
+(* The header of a transaction is a chain of seven stages, each handing its state to the next.  The
+   stages are named here (the model writes them inline) so that the proof follows the chain once
+   instead of splitting it into its 2^7 paths. *)
+Definition hdr_date2 (ps : pstate) := if is_ty (ctype ps) TEquals then parse_date (adv ps) else (None, ps).
+Definition hdr_status (ps : pstate) := if is_ty (ctype ps) TStatus then parse_status ps else (StNone, ps).
+Definition hdr_code (ps : pstate) := if is_ty (ctype ps) TCode then (tk_val (cur ps), adv ps) else ([], ps).
+Definition hdr_desc (ps : pstate) :=
+  if is_ty (ctype ps) TText then
+    let d0 := tk_val (cur ps) in
+    let prng := text_range (tk_pos (cur ps)) d0 in
+    let ps := adv ps in
+    if is_ty (ctype ps) TPipe then
+      let payee := trim_space_u d0 in
+      let ps := adv ps in
+      let '(note, ps) := if is_ty (ctype ps) TText then (trim_space_u (tk_val (cur ps)), adv ps) else ([], ps) in
+      ((match note with [] => payee | _ => payee ++ sep_note ++ note end), payee, note, prng, ps)
+    else (d0, [], [], prng, ps)
+  else ([], [], [], rng0, ps).
+Definition hdr_cmts (ps : pstate) :=
+  if is_ty (ctype ps) TComment then let '(c, ps) := parse_comment ps in ([c], ps) else ([], ps).
+Definition hdr_nl (ps : pstate) := if is_ty (ctype ps) TNewline then adv ps else ps.
+
+Lemma parse_transaction_stages fuel ps : parse_transaction fuel ps =
+  let start := zpos (tk_pos (cur ps)) in
+  match parse_date ps with
+  | (None, ps) => Some (None, skip_to_next_line ps)
+  | (Some d, ps) =>
+      let '(d2, ps) := hdr_date2 ps in
+      let '(st, ps) := hdr_status ps in
+      let '(code, ps) := hdr_code ps in
+      let '(desc, payee, note, prng, ps) := hdr_desc ps in
+      let '(cmts, ps) := hdr_cmts ps in
+      let ps := hdr_nl ps in
+      match parse_postings fuel ps [] with
+      | None => None
+      | Some (posts, ps) =>
+          Some (Some (mkTx d d2 st code desc payee note prng posts [] cmts (mkRng start (zpos (tk_pos (cur ps))))), ps)
+      end
+  end.
+Proof. reflexivity. Qed.
+
+Lemma hdr_date2_le ps : le (snd (hdr_date2 ps)) ps.
+Proof.
+  unfold hdr_date2. destruct (is_ty (ctype ps) TEquals); [|apply le_refl].
+  eapply le_trans; [apply parse_date_le|apply adv_le].
+Qed.
+Lemma hdr_status_le ps : le (snd (hdr_status ps)) ps.
+Proof. unfold hdr_status. destruct (is_ty (ctype ps) TStatus); [apply parse_status_le|apply le_refl]. Qed.
+Lemma hdr_code_le ps : le (snd (hdr_code ps)) ps.
+Proof. unfold hdr_code. destruct (is_ty (ctype ps) TCode); cbn [snd]; [apply adv_le|apply le_refl]. Qed.
+Lemma hdr_desc_le ps : le (snd (hdr_desc ps)) ps.
+Proof.
+  unfold hdr_desc. destruct (is_ty (ctype ps) TText); [|apply le_refl]. cbv zeta.
+  destruct (is_ty (ctype (adv ps)) TPipe); [|cbn [snd]; apply adv_le].
+  destruct (is_ty (ctype (adv (adv ps))) TText); cbn [snd]; le_tac.
+Qed.
+Lemma hdr_cmts_le ps : le (snd (hdr_cmts ps)) ps.
+Proof.
+  unfold hdr_cmts. destruct (is_ty (ctype ps) TComment); [|apply le_refl].
+  pose proof (parse_comment_le ps) as L. destruct (parse_comment ps) as [c p]. exact L.
+Qed.
+Lemma hdr_nl_le ps : le (hdr_nl ps) ps.
+Proof. unfold hdr_nl. destruct (is_ty (ctype ps) TNewline); [apply adv_le|apply le_refl]. Qed.
+
 Lemma parse_transaction_total fuel ps : wf ps -> len ps <= fuel -> is_ty (ctype ps) TDate = true ->
   exists r ps', parse_transaction fuel ps = Some (r, ps') /\ wf ps' /\ len ps' < len ps.
 Proof.
   intros W L Td. pose proof (parse_date_lt ps Td) as D.
-  unfold parse_transaction. destruct (parse_date ps) as [od ps1] eqn:Ed. cbn [snd] in D.
+  rewrite parse_transaction_stages. cbv zeta. destruct (parse_date ps) as [od ps1] eqn:Ed. cbn [snd] in D.
   destruct (D W) as [W1 L1].
   destruct od as [d|].
-  - break_hdr;
-      match goal with
-      | |- context [parse_postings fuel ?PS []] =>
-          assert (LE : le PS ps1) by (sub_facts; le_solve);
-          destruct (LE W1) as [Wn Ln];
-          destruct (parse_postings_total fuel PS [] Wn ltac:(lia)) as (r & ps' & E & W' & L');
-          rewrite E; eexists; eexists; split; [reflexivity|]; split; [exact W'|lia]
-      end.
+  - pose proof (hdr_date2_le ps1) as A2. destruct (hdr_date2 ps1) as [d2 ps2]. cbn [snd] in A2.
+    pose proof (hdr_status_le ps2) as A3. destruct (hdr_status ps2) as [st ps3]. cbn [snd] in A3.
+    pose proof (hdr_code_le ps3) as A4. destruct (hdr_code ps3) as [code ps4]. cbn [snd] in A4.
+    pose proof (hdr_desc_le ps4) as A5. destruct (hdr_desc ps4) as [[[[desc payee] note] prng] ps5]. cbn [snd] in A5.
+    pose proof (hdr_cmts_le ps5) as A6. destruct (hdr_cmts ps5) as [cmts ps6]. cbn [snd] in A6.
+    pose proof (hdr_nl_le ps6) as A7.
+    assert (LE : le (hdr_nl ps6) ps1) by (repeat (eapply le_trans; [eassumption|]); apply le_refl).
+    destruct (LE W1) as [Wn Ln].
+    destruct (parse_postings_total fuel (hdr_nl ps6) [] Wn ltac:(lia)) as (r & ps' & E & W' & L').
+    rewrite E. eexists; eexists. split; [reflexivity|]. split; [exact W'|lia].
   - eexists; eexists. split; [reflexivity|]. destruct (skip_to_next_line_le ps1 W1) as [W2 L2]. split; [exact W2|lia].
 Qed.
 
